@@ -23,3 +23,37 @@ contract('FormatMixin._format_class_name', params={'instantiated_class': 'ref:In
          returns='str', assumed=True, note='type-only contract; not yet verified')
 contract('MatlabWrapper._format_varargout', params={'return_type': 'ref:ReturnType', 'return_type_formatted': 'str'},
          returns='str')
+
+# ---- default-argument expansion and grouping: type-level contracts (C06 strengthens them)
+METHODISH = 'ref:Constructor|ref:Method|ref:StaticMethod|ref:GlobalFunction'
+
+
+def _list_of_arg(name):
+    return lambda env: frozenset([('list', env[name].ty)])
+
+
+def _list_of_list_of_elem(name):
+    def f(env):
+        ety = set()
+        for a in env[name].ty:
+            if isinstance(a, tuple) and a[0] == 'list':
+                ety |= set(a[1])
+        return frozenset([('list', frozenset([('list', frozenset(ety))]))])
+    return f
+
+
+contract('MatlabWrapper._expand_default_arguments',
+         params={'method': METHODISH, 'save_backup': 'bool'},
+         returns=_list_of_arg('method'), fresh=True,
+         modifies=['heap:backup', 'alloc'],
+         ensures=['len(result) >= 1'],
+         raises={'AssertionError': None},
+         assumed=True, note='type-level contract; the arity/backup clauses are in contracts/c06.py')
+
+contract('MatlabWrapper._group_methods',
+         params={'methods': 'list[%s]' % METHODISH},
+         returns=_list_of_list_of_elem('methods'), fresh=True,
+         modifies=['heap:backup', 'alloc'],
+         ensures=['forall(0, len(result), lambda g: len(result[g]) >= 1)'],
+         raises={'AssertionError': None},
+         assumed=True, note='type-level contract; grouping clauses are in contracts/c06.py')
